@@ -801,6 +801,12 @@ class Interp:
         m = re.fullmatch(r"'\\u\{([0-9a-fA-F]+)\}'", s)
         if m:
             return Int(z3.BitVecVal(int(m.group(1), 16), 32), 32, False)
+        std_consts = {"core::f64::<impl f64>::DIGITS": (15, 32), "core::f32::<impl f32>::DIGITS": (6, 32),
+                      "core::num::<impl u8>::MAX": (255, 8), "core::num::<impl u32>::MAX": (2 ** 32 - 1, 32),
+                      "core::num::<impl u64>::MAX": (2 ** 64 - 1, 64), "core::num::<impl usize>::MAX": (2 ** 64 - 1, 64)}
+        if s in std_consts:
+            v_, b_ = std_consts[s]
+            return Int(z3.BitVecVal(v_, b_), b_, False)
         esc = {"'\\n'": 10, "'\\t'": 9, "'\\r'": 13, "'\\''": 39, "'\\\\'": 92, "'\\0'": 0}
         if s in esc:
             return Int(z3.BitVecVal(esc[s], 32), 32, False)
